@@ -14,7 +14,7 @@ from pynetdicom import AE, build_context, evt
 from pynetdicom.dsutils import encode
 from pynetdicom.dimse_primitives import C_CANCEL, C_ECHO, C_FIND, C_GET, C_MOVE, C_STORE
 
-from scu_rig import snapshot, CT_STORAGE, PATIENT_ROOT_FIND, PATIENT_ROOT_GET, PATIENT_ROOT_MOVE, REPOSITORY_QUERY  # noqa: F401
+from scu_rig import WireTap, snapshot, CT_STORAGE, PATIENT_ROOT_FIND, PATIENT_ROOT_GET, PATIENT_ROOT_MOVE, REPOSITORY_QUERY  # noqa: F401
 
 
 class ScpRig:
@@ -41,6 +41,7 @@ class ScpRig:
         self.aborts = 0
         self.released = 0
         self.on_send = None
+        self.tap = WireTap(a)
         a.dimse.send_msg = self._send_msg
         for f in ("abort", "_abort_blocking", "_abort_nonblocking"):
             setattr(a, f, self._abort)
@@ -49,9 +50,11 @@ class ScpRig:
             a.bind(ev, h)
 
     def _send_msg(self, primitive, context_id):
-        self.sent.append((snapshot(primitive), context_id))
+        rec = self.tap.send(primitive, context_id)
+        got = rec["primitive"] if rec["primitive"] is not None else primitive
+        self.sent.append((snapshot(got), context_id))
         if self.on_send:
-            self.on_send(primitive, context_id)
+            self.on_send(got, context_id)
 
     def _abort(self, *a, **k):
         self.aborts += 1
